@@ -586,6 +586,17 @@ fn is_merge_key(node: &KeyNode) -> bool {
     )
 }
 
+/// A merge value that merges nothing: a null. As everywhere else, a scalar tagged `!!null` is
+/// null whatever its text, and a null-like text under another tag (`!!str null`, the `!!binary`
+/// payload `null`) is a value - which is no mapping, hence no valid merge value.
+fn merge_value_is_null(value: &str, style: &ScalarStyle, tag: &SfTag) -> bool {
+    match tag {
+        SfTag::Null => true,
+        SfTag::None => scalar_is_nullish(value, style),
+        _ => false,
+    }
+}
+
 /// Expand a merge value node into a queue of `PendingEntry`s in correct order.
 ///
 /// Arguments:
@@ -606,9 +617,9 @@ fn pending_entries_from_events<'a>(
 ) -> Result<Vec<PendingEntry<'a>>, Error> {
     let mut replay = ReplayEvents::with_reference(events, reference_location);
     match replay.peek()? {
-        Some(Ev::Scalar { value, style, .. }) if scalar_is_nullish(value.as_ref(), style) => {
-            Ok(Vec::new())
-        }
+        Some(Ev::Scalar {
+            value, style, tag, ..
+        }) if merge_value_is_null(value.as_ref(), style, tag) => Ok(Vec::new()),
         Some(Ev::Scalar { location, .. }) => Err(Error::MergeValueNotMapOrSeqOfMaps {
             location: *location,
         }),
@@ -675,7 +686,9 @@ fn pending_entries_from_live_events<'a>(
     dup_policy: DuplicateKeyPolicy,
 ) -> Result<Vec<PendingEntry<'a>>, Error> {
     match ev.peek()? {
-        Some(Ev::Scalar { value, style, .. }) if scalar_is_nullish(value.as_ref(), style) => {
+        Some(Ev::Scalar {
+            value, style, tag, ..
+        }) if merge_value_is_null(value.as_ref(), style, tag) => {
             let _ = ev.next()?;
             Ok(Vec::new())
         }
